@@ -9,6 +9,7 @@
      unpack <hexpacket>          vorbis_synthesis_headerin on an arbitrary comment packet
      query <taghex> <n>          on the last successfully unpacked list
      count <taghex>
+     editrt <seed> <n0> <nadd>   (harness only) a decoded list of n0 entries gets nadd entries through vorbis_comment_add / add_tag, is written and read again
      vfround <seed> <entries> <len|0=mixed> <seekable> <chunk>     (harness only) the list through encoder headers, Ogg pages and ov_open_callbacks / ov_comment
 */
 static unsigned char c16_ident[30]={1,'v','o','r','b','i','s',0,0,0,0,2,0x44,0xac,0,0,0,0,0,0,0,0xee,2,0,0,0,0,0,0xb8,1};
@@ -87,6 +88,35 @@ static void c16_vfround(long seed,int nent,long len,int seekable,long chunk){
   free(out.p); ogg_stream_clear(&os); vorbis_block_clear(&vb); vorbis_dsp_clear(&vd); vorbis_comment_clear(&vc); vorbis_info_clear(&vi);
 }
 
+/* the tag-editor workflow: a list that came out of the decoder (tables sized by _vorbis_unpack_comment, not by vorbis_comment_add) is appended to
+   with the public add calls, written again and read back */
+static void c16_editrt(long seed,int n0,int nadd){
+  vorbis_comment vc,got; vorbis_info vi; ogg_packet op; int i,rc,same=1; uint32_t st=(uint32_t)(seed*2654435761u+31u)|1; char **want=calloc(n0+nadd+1,sizeof(char*));
+  vorbis_comment_init(&vc);
+  vc.comments=n0; vc.user_comments=calloc(n0+1,sizeof(char*)); vc.comment_lengths=calloc(n0+1,sizeof(int));
+  for(i=0;i<n0;i++){ int L=1+(int)(st%23),j; char *e=malloc(L+1); for(j=0;j<L;j++){ st^=st<<13; st^=st>>17; st^=st<<5; e[j]=(char)('a'+st%26); } e[L]=0; if(L>3)e[2]='='; vc.user_comments[i]=e; vc.comment_lengths[i]=L; want[i]=strdup(e); }
+  memset(&op,0,sizeof op); rc=vorbis_commentheader_out(&vc,&op); vorbis_comment_clear(&vc);
+  if(rc){ printf("editrt rc=pack1\n"); goto out; }
+  vorbis_info_init(&vi); vorbis_comment_init(&got);
+  { ogg_packet id; memset(&id,0,sizeof id); id.packet=c16_ident; id.bytes=30; id.b_o_s=1; vorbis_synthesis_headerin(&vi,&got,&id); }
+  op.packetno=1; rc=vorbis_synthesis_headerin(&vi,&got,&op); ogg_packet_clear(&op);
+  if(rc){ printf("editrt rc=unpack1\n"); vorbis_comment_clear(&got); vorbis_info_clear(&vi); goto out; }
+  for(i=0;i<nadd;i++){ char buf[64]; st^=st<<13; st^=st>>17; st^=st<<5; snprintf(buf,sizeof buf,"v%u",(unsigned)(st%100000));
+    if(i&1){ char full[80]; snprintf(full,sizeof full,"ADDED%d=%s",i,buf); vorbis_comment_add(&got,full); want[n0+i]=strdup(full); }
+    else{ char tag[16],full[80]; snprintf(tag,sizeof tag,"TAG%d",i); vorbis_comment_add_tag(&got,tag,buf); snprintf(full,sizeof full,"%s=%s",tag,buf); want[n0+i]=strdup(full); } }
+  memset(&op,0,sizeof op); rc=vorbis_commentheader_out(&got,&op); vorbis_comment_clear(&got); vorbis_info_clear(&vi);
+  if(rc){ printf("editrt rc=pack2\n"); goto out; }
+  vorbis_info_init(&vi); vorbis_comment_init(&got);
+  { ogg_packet id; memset(&id,0,sizeof id); id.packet=c16_ident; id.bytes=30; id.b_o_s=1; vorbis_synthesis_headerin(&vi,&got,&id); }
+  op.packetno=1; rc=vorbis_synthesis_headerin(&vi,&got,&op); ogg_packet_clear(&op);
+  if(rc){ printf("editrt rc=unpack2\n"); }
+  else{ if(got.comments!=n0+nadd)same=0; for(i=0;same&&i<n0+nadd;i++) if(got.comment_lengths[i]!=(int)strlen(want[i])||memcmp(got.user_comments[i],want[i],strlen(want[i])))same=0;
+    printf("editrt rc=0 n=%d same=%d\n",got.comments,same); }
+  vorbis_comment_clear(&got); vorbis_info_clear(&vi);
+out:
+  for(i=0;i<n0+nadd;i++)free(want[i]); free(want);
+}
+
 static int c16_main(int argc,char **argv){
   char *line; char **tok=malloc(sizeof(char*)*70000);
   while((line=readline_(stdin))){
@@ -127,6 +157,8 @@ static int c16_main(int argc,char **argv){
         }
       }
       free(t.p);
+    }else if(!strcmp(tok[0],"editrt")&&n>=4){
+      c16_editrt(atol(tok[1]),atoi(tok[2]),atoi(tok[3]));
     }else if(!strcmp(tok[0],"vfround")&&n>=6){
       c16_vfround(atol(tok[1]),atoi(tok[2]),atol(tok[3]),atoi(tok[4]),atol(tok[5]));
     }else if(!strcmp(tok[0],"count")){
